@@ -3,7 +3,8 @@
 Prints which checks report a VIOLATION. Never leaves the patch applied."""
 import json, os, subprocess, sys, time
 mdir, pid = sys.argv[1], sys.argv[2]
-props = [pid]
+props = pid.split(",")
+pid = props[0]
 if "--all" in sys.argv:
     props = [pid] + [p for p in [f"C{n:02d}" for n in range(1, 19)] if p != pid]
 patch = os.path.join(mdir, "patch.diff")
